@@ -764,6 +764,82 @@ def rule_R7optake(text, applied):
     return text
 
 
+def rule_R26(text, applied):
+    """`X.stack().filter(|d| F1)...filter(|d| Fk).map(|d| M).collect()` (DecisionTracker::stack() is
+    `self.stack.iter().copied()`) -> the loop that is the std definition of filter/map/collect:
+      { let mut out_ = Vec::new(); let mut si_: usize = 0;
+        while si_ < X.stack.len() { let d = &X.stack[si_]; si_ += 1;
+            <for every filter>  EXPR closure:  if !(EXPR) { continue; }
+                                BLOCK closure: its statements with `return false;` -> `continue;`, then `if !(TAIL) { continue; }`
+            out_.push(M); }
+        out_ }
+    A `return true;` inside a filter closure, or any other adapter, is outside the subset."""
+    m_text = mask(text)
+    m = re.search(r"((?:\w+\s*\.\s*)*\w+)\s*\.\s*stack\(\)\s*(?:\.\s*filter\s*\()", m_text)
+    if not m:
+        raise ExtractError("R26: `X.stack().filter(..)` chain not found (lost anchor)")
+    recv = "".join(m.group(1).split())
+    pos = m_text.index(".", m.end(1))           # the `.stack()` dot
+    pos = m_text.index(")", pos) + 1            # after `stack()`
+    parts = []
+    var = None
+    while True:
+        mm = re.match(r"\s*\.\s*(filter|map|collect)\s*(?:::<[^>]*>)?\s*\(", m_text[pos:])
+        if not mm:
+            break
+        kind = mm.group(1)
+        op = pos + mm.end() - 1
+        cp = match_close(m_text, op)
+        arg = text[op + 1:cp]
+        if kind == "collect":
+            pos = cp + 1
+            parts.append(("collect", None))
+            break
+        cm = re.match(r"\s*\|\s*(\w+)\s*\|\s*", mask(arg))
+        if not cm:
+            raise ExtractError("R26: adapter argument is not a closure literal |d| ..")
+        v = cm.group(1)
+        if var is None:
+            var = v
+        elif var != v:
+            raise ExtractError("R26: closures use different parameter names")
+        body = arg[cm.end():].strip().rstrip(",").strip()
+        parts.append((kind, body))
+        pos = cp + 1
+    if not parts or parts[-1][0] != "collect" or len([p_ for p_ in parts if p_[0] == "map"]) != 1 or parts[-2][0] != "map":
+        raise ExtractError("R26: chain is not filter*.map.collect (outside the subset)")
+    code = f"{{ let mut out_ = Vec::new(); let mut si_: usize = 0; while si_ < {recv}.stack.len() {{ let {var} = &{recv}.stack[si_]; si_ += 1; "
+    for kind, body in parts[:-1]:
+        if kind == "filter":
+            if mask(body).startswith("{"):
+                inner = body[1:match_close(mask(body), 0)]
+                mi = mask(inner)
+                if re.search(r"\breturn\s+true\b", mi):
+                    raise ExtractError("R26: `return true` in a filter closure (outside the subset)")
+                inner, _n = _sub_masked(inner, r"\breturn\s+false\s*;", lambda mm_, s_: "continue;")
+                # split off the tail expression (after the last top-level `;`)
+                mi = mask(inner)
+                d_ = 0
+                last = -1
+                for q, ch in enumerate(mi):
+                    if ch in "([{":
+                        d_ += 1
+                    elif ch in ")]}":
+                        d_ -= 1
+                    elif ch == ";" and d_ == 0:
+                        last = q
+                stm, tail = inner[:last + 1], inner[last + 1:]
+                code += stm + f" if !({tail.strip()}) {{ continue; }} "
+            else:
+                code += f"if !({body}) {{ continue; }} "
+        else:
+            code += f"out_.push({body}); "
+    code += "} out_ }"
+    text = text[:m.start(1)] + _keep_newlines(text[m.start(1):pos], code) + text[pos:]
+    applied.append(f"R26({len(parts) - 2} filters)")
+    return text
+
+
 def rule_R6(text, applied):
     """receiver `mut self` -> `self` plus `let mut self_ = self;` as first statement; `self` -> `self_` in the body."""
     m_text = mask(text)
@@ -1419,6 +1495,7 @@ def rule_const(text, applied):
 
 
 RULES = {
+    "R26": rule_R26,
     "R25": rule_R25, "R7optake": rule_R7optake,
     "R23": rule_R23, "R24": rule_R24,
     "R16push": rule_R16push, "R22": rule_R22, "R22flat": rule_R22flat,
